@@ -756,24 +756,25 @@ theorem ex_src_nodup : NodupKeysV (.dict (normEs exSrc.data)) := by
   decide +kernel
 
 def exAppendText : Str :=
-  C12.nativeHeaderChars ++ ("/* blk */\n// old\na                             1;\nsub\n{\n" ++
-    "    x                         1;\n    y                         2;\n}\n// src\n" ++
-    "b                             2;\n").toList
+  C12.nativeHeaderChars ++ C01.unlines
+    ["/* blk */", "// old", "a                             1;", "sub", "{", "    x                         1;",
+     "    y                         2;", "}", "// src", "b                             2;"]
 
 def exOverwriteText : Str :=
-  C12.nativeHeaderChars ++ ("/* blk */\n// src\na                             9;\n" ++
-    "b                             2;\nsub\n{\n    x                         7;\n" ++
-    "    y                         2;\n}\n").toList
+  C12.nativeHeaderChars ++ C01.unlines
+    ["/* blk */", "// src", "a                             9;", "b                             2;", "sub", "{",
+     "    x                         7;", "    y                         2;", "}"]
 
 theorem ir1 : intRepr 1 = ['1'] := by show intRepr (Int.ofNat 1) = _; simp [intRepr, natDigits]
 theorem ir2 : intRepr 2 = ['2'] := by show intRepr (Int.ofNat 2) = _; simp [intRepr, natDigits]
 theorem ir7 : intRepr 7 = ['7'] := by show intRepr (Int.ofNat 7) = _; simp [intRepr, natDigits]
 theorem ir9 : intRepr 9 = ['9'] := by show intRepr (Int.ofNat 9) = _; simp [intRepr, natDigits]
 
-theorem ex_raw_append : fmtEntries .native 0 (hoistPlaceholders (appendSD exRead exSrc).data) =
-    ("BLOCKCOMMENT000001            BLOCKCOMMENT000001;\nLINECOMMENT000002             LINECOMMENT000002;\n" ++
-     "a                             1;\nsub\n{\n    x                         1;\n    y                         2;\n}\n" ++
-     "LINECOMMENT000000             LINECOMMENT000000;\nb                             2;\n").toList := by
+theorem ex_raw_append : fmtEntries .native 0 (hoistPlaceholders (appendSD exRead exSrc).data) = C01.unlines
+    ["BLOCKCOMMENT000001            BLOCKCOMMENT000001;", "LINECOMMENT000002             LINECOMMENT000002;",
+     "a                             1;", "sub", "{", "    x                         1;",
+     "    y                         2;", "}", "LINECOMMENT000000             LINECOMMENT000000;",
+     "b                             2;"] := by
   have h : hoistPlaceholders (appendSD exRead exSrc).data =
       [phE "BLOCKCOMMENT" 1, phE "LINECOMMENT" 2, (.str ['a'], .leaf (.int 1)),
        (.str "sub".toList, .dict [(.str ['x'], .leaf (.int 1)), (.str ['y'], .leaf (.int 2))]),
@@ -782,10 +783,10 @@ theorem ex_raw_append : fmtEntries .native 0 (hoistPlaceholders (appendSD exRead
   simp only [phE, fmtEntries, fmtList, fmtItems, formatKey, keyStr, formatScalar, ir1, ir2]
   decide +kernel
 
-theorem ex_raw_overwrite : fmtEntries .native 0 (hoistPlaceholders (retypeSD exSrc).data) =
-    ("BLOCKCOMMENT000001            BLOCKCOMMENT000001;\nLINECOMMENT000000             LINECOMMENT000000;\n" ++
-     "a                             9;\nb                             2;\nsub\n{\n" ++
-     "    x                         7;\n    y                         2;\n}\n").toList := by
+theorem ex_raw_overwrite : fmtEntries .native 0 (hoistPlaceholders (retypeSD exSrc).data) = C01.unlines
+    ["BLOCKCOMMENT000001            BLOCKCOMMENT000001;", "LINECOMMENT000000             LINECOMMENT000000;",
+     "a                             9;", "b                             2;", "sub", "{",
+     "    x                         7;", "    y                         2;", "}"] := by
   have h : hoistPlaceholders (retypeSD exSrc).data =
       [phE "BLOCKCOMMENT" 1, phE "LINECOMMENT" 0, (.str ['a'], .leaf (.int 9)), (.str ['b'], .leaf (.int 2)),
        (.str "sub".toList, .dict [(.str ['x'], .leaf (.int 7)), (.str ['y'], .leaf (.int 2))])] := by decide +kernel
